@@ -263,6 +263,7 @@ func (p *c09silent) closeAll() {
 }
 
 type c09world struct {
+	vmu         sync.Mutex // guards victims
 	silentClass bool
 	oldTimeout  time.Duration
 	paused      bool
@@ -290,6 +291,8 @@ type c09world struct {
 func (w *c09world) tag(s string) { w.tags[s] = true }
 
 func (w *c09world) victim(n int) *c09victim {
+	w.vmu.Lock()
+	defer w.vmu.Unlock()
 	if v, ok := w.victims[n]; ok {
 		return v
 	}
@@ -732,7 +735,18 @@ func (w *c09world) par(entry string, deads []int, healthy int) string {
 			}
 			jobs = append(jobs, job{func() bool { return tni.SendTo(nodes[0], &fix.M3{V: 1}) != nil }})
 		} else {
-			jobs = append(jobs, job{func() bool { e, _ := w.sendOne(entry, d); return e }})
+			// identities are resolved here: the victim table is not for concurrent use
+			si := w.sid(d)
+			if entry == "router" {
+				jobs = append(jobs, job{func() bool {
+					_, err := w.s.Send(si, &C09Msg{V: atomic.AddInt64(&w.seq, 1)})
+					return err != nil
+				}})
+			} else {
+				jobs = append(jobs, job{func() bool {
+					return w.svc.ctx.SendRaw(si, &C09Msg{V: atomic.AddInt64(&w.seq, 1)}) != nil
+				}})
+			}
 		}
 	}
 	t0 := time.Now()
@@ -747,8 +761,15 @@ func (w *c09world) par(entry string, deads []int, healthy int) string {
 			atomic.AddInt32(&finished, 1)
 		}()
 	}
+	hsi := w.sid(healthy)
+	nDead := 0
+	for _, d := range deads {
+		if !w.isUp(d) {
+			nDead++
+		}
+	}
 	time.Sleep(100 * time.Millisecond)
-	_, herr := w.s.Send(w.sid(healthy), &C09Msg{V: atomic.AddInt64(&w.seq, 1)})
+	_, herr := w.s.Send(hsi, &C09Msg{V: atomic.AddInt64(&w.seq, 1)})
 	hlat := time.Since(t0) - 100*time.Millisecond
 	doneBefore := atomic.LoadInt32(&finished)
 	deadline := time.After(3 * time.Second)
@@ -771,12 +792,6 @@ out:
 	}
 	if w.isUp(healthy) && delivered > 0 {
 		hv.connected = true
-	}
-	nDead := 0
-	for _, d := range deads {
-		if !w.isUp(d) {
-			nDead++
-		}
 	}
 	if int(errs) < nDead {
 		w.cs.Fail("error-not-reported", fmt.Sprintf("%d concurrent %s sends towards dead peers %v: %d errors reported", len(deads), entry, deads, errs))
@@ -1002,11 +1017,13 @@ func c09exec(c *h.Ctx, cs *h.Case) {
 				w.handlers = append(w.handlers, hd)
 				w.s.AddErrorHandler(func(si *network.ServerIdentity) {
 					who := "?"
+					w.vmu.Lock()
 					for n, v := range w.victims {
 						if si != nil && si.Public != nil && v.kp.Public.Equal(si.Public) {
 							who = strconv.Itoa(n)
 						}
 					}
+					w.vmu.Unlock()
 					if si != nil && w.s2.ServerIdentity.Public.Equal(si.Public) {
 						who = "0"
 					}
